@@ -418,6 +418,32 @@ func c10Specs(thorough bool) []c10Case {
 			}
 		}
 	}
+	// files that share a name (and files that share name AND content): 2 or 3 attachments, 2 or 3 embeds, and an attachment next to an embed
+	for ni, nm := range []string{"report.txt", "ä b.txt", "logo.png"} {
+		for _, menc := range encs {
+			for kind := 0; kind < 5; kind++ {
+				s := mb.Msg{Enc: menc, Parts: []mb.Part{{Type: "text/plain", Content: texts[0]}}}
+				a, b, c := mb.File{Name: nm, Content: bins[0]}, mb.File{Name: nm, Content: bins[1]}, mb.File{Name: nm, Content: bins[0]}
+				switch kind {
+				case 0:
+					s.Attach = []mb.File{a, b}
+				case 1:
+					s.Embeds = []mb.File{a, b}
+				case 2:
+					s.Attach = []mb.File{a, b, c}
+					s.Parts = append(s.Parts, mb.Part{Type: "text/html", Content: htmls[0]})
+				case 3:
+					s.Embeds = []mb.File{a, c, b}
+				default:
+					s.Attach = []mb.File{a}
+					s.Embeds = []mb.File{b}
+				}
+				sub := subjects[ni%len(subjects)]
+				s.Subject = &sub
+				cs = append(cs, c10Case{Spec: s})
+			}
+		}
+	}
 	// every file name as attachment and as embed, in every message encoding
 	for ni, nm := range names {
 		for _, menc := range encs {
@@ -505,7 +531,7 @@ func init() {
 	vf.Register(&vf.Check{
 		ID: "C10", Title: "render → parse → render preserves the message",
 		Run: func(r *vf.Run) {
-			r.SetRule("builder programs inside the parser's feature set: body text/plain with optional text/html alternative × 0..2 attachments × 0..2 embeds × message encoding {QP, base64, 8bit, 7bit} × per-part encodings × 6 text contents ('=', dots, UTF-8, long lines, LF-only, no final newline) plus every body part empty / one byte / a bare line break in every structure × 4 file contents × 22 file names (inner / leading / trailing blanks and Unicode spaces, non-ASCII, ';', '=') and a sweep of 105 code points (all of U+00A1..U+00FF, 3- and 4-byte ones) at the three base64 alignments under both header encoders × every combination of Content-ID / description / media-type option on attachments and embeds × 5 subjects × 5 display names (RFC 2047, comma, 80 chars) × To and Cc lists of different lengths parsed under every map-iteration start; each is rendered, the rendering is checked with the independent reader (precondition), parsed with EMLToMsgFromReader, compared with the model through the Msg getters, rendered again and compared again through the independent reader; distinct by program")
+			r.SetRule("builder programs inside the parser's feature set: body text/plain with optional text/html alternative × 0..2 attachments × 0..2 embeds (also files that share a name, or name and content) × message encoding {QP, base64, 8bit, 7bit} × per-part encodings × 6 text contents ('=', dots, UTF-8, long lines, LF-only, no final newline) plus every body part empty / one byte / a bare line break in every structure × 4 file contents × 22 file names (inner / leading / trailing blanks and Unicode spaces, non-ASCII, ';', '=') and a sweep of 105 code points (all of U+00A1..U+00FF, 3- and 4-byte ones) at the three base64 alignments under both header encoders × every combination of Content-ID / description / media-type option on attachments and embeds × 5 subjects × 5 display names (RFC 2047, comma, 80 chars) × To and Cc lists of different lengths parsed under every map-iteration start; each is rendered, the rendering is checked with the independent reader (precondition), parsed with EMLToMsgFromReader, compared with the model through the Msg getters, rendered again and compared again through the independent reader; distinct by program")
 			r.Assume("messages whose first rendering is already wrong are C01's business and skipped here", "the parser may choose other transfer encodings on re-rendering; contents are compared decoded (QP text modulo LF->CRLF)")
 			cases := c10Specs(r.Thorough)
 			r.Extra("programs", len(cases))
